@@ -262,7 +262,15 @@ def run(P, rep, tier):
         for ev in g.events(('st',)):
             e = ev['e']
             if e[0] == 'a' and e[1] == '=' and last_field(strip(e[2])) == tpn and not is_lit_any(e[3]):
-                l2b.append((g, ev, bool(reads(e[3]) & dsrc)))
+                rd = set(reads(e[3]))
+                # through locals with a single definition (`const uint64_t last = pcs->picture_number_alt; ctx->terminating = last;`)
+                for x in value_reads(e[3]):
+                    if x[0] == 'v' and x[2] == 'l':
+                        defs = [d for d in g.events(('decl', 'st')) if (d['k'] == 'decl' and d['n'] == x[1] and d.get('e') is not None) or
+                                (d['k'] == 'st' and d['e'][0] == 'a' and d['e'][1] == '=' and strip(d['e'][2]) == x)]
+                        if len(defs) == 1:
+                            rd |= reads(defs[0]['e'] if defs[0]['k'] == 'decl' else defs[0]['e'][3])
+                l2b.append((g, ev, bool(rd & dsrc)))
     rep.ob('C03.EOS', 'link2b:terminating-number-domain', bool(l2b) and all(ok for _, _, ok in l2b), l2b[0][0].loc(l2b[0][1]) if l2b else pk.loc(),
            ('terminating_picture_number is taken from a source of decode_order (%s)' % sorted(x.split('.')[1] for x in dsrc)[:4]) if (l2b and all(ok for _, _, ok in l2b)) else
            'terminating_picture_number is not taken from any member decode_order is derived from: it is compared with decode_order (coded-picture numbering, overlays included), so EOS lands on the wrong packet when the two numberings differ')
